@@ -272,8 +272,9 @@ let kind4 expected runs =
   let problems = ref [] in
   List.iter (fun rv ->
     match as_list rv with
-    | [chunk; buf; procs; code; objs] ->
-      let cfg = Printf.sprintf "chunk=%d buffer=%d procs=%d" (as_int chunk) (as_int buf) (as_int procs) in
+    | [chunk; buf; procs; maxr; code; objs] ->
+      let maxr = as_int maxr in
+      let cfg = Printf.sprintf "chunk=%d buffer=%d procs=%d max=%d" (as_int chunk) (as_int buf) (as_int procs) maxr in
       (match as_int code with
        | 2 -> problems := (cfg ^ ": request did not return (teardown did not complete)") :: !problems
        | 1 -> problems := (cfg ^ ": ListObjects failed while every Check succeeded") :: !problems
@@ -284,6 +285,9 @@ let kind4 expected runs =
          let missing = List.filter (fun x -> not (List.mem x got)) exp in
          let extra = List.filter (fun x -> not (List.mem x exp)) got in
          if d <> [] then problems := (cfg ^ ": duplicated " ^ String.concat "," d) :: !problems;
+         (* with a result limit the request stops early (and cancels the pipeline): it must still
+            return min(limit, all) distinct expected objects *)
+         let missing = if maxr > 0 && List.length got = min maxr (List.length exp) then [] else missing in
          if missing <> [] then problems := (cfg ^ ": missing " ^ String.concat "," missing) :: !problems;
          if extra <> [] then problems := (cfg ^ ": extra " ^ String.concat "," extra) :: !problems)
     | _ -> problems := "malformed run" :: !problems) runs;
